@@ -217,6 +217,8 @@ def b_len(interp, x):
         return x.length()
     if isinstance(x, SymBytesList):
         return x.n
+    if isinstance(x, (SymSetOf, SymListZip)):
+        return x.length()
     if isinstance(x, (list, tuple, bytes, bytearray, str, dict, set, range)):
         return len(x)
     from .anyval import SAny, SymSeq
@@ -334,7 +336,63 @@ def b_enumerate(interp, it, start=0):
     return list(enumerate(interp.iterate(it), start))
 
 
+class SymListZip(SymIter):
+    """zip(...) of symbolic lists of byte strings (truncates to the shortest)"""
+
+    def __init__(self, parts):
+        self.parts = parts
+
+    def length(self):
+        n = zt(self.parts[0].n)
+        for p in self.parts[1:]:
+            n = z3.If(zt(p.n) < n, zt(p.n), n)
+        return SInt(n)
+
+    def map_comprehension(self, interp, elt, gen, frame):
+        # [f(a, b) for a, b in zip(A, B)] with a bytes-valued element expression: a lambda array
+        j = z3.Int(f"j!{next(cur().fresh_id)}")
+        names = [e.id for e in gen.target.elts] if isinstance(gen.target, ast.Tuple) else [gen.target.id]
+        if gen.ifs or len(names) != len(self.parts):
+            raise Unsupported("comprehension over a zip of symbolic lists with a filter / wrong arity")
+        inner = I().Frame(frame.mod, dict(frame.env), frame.func, frame.cls, frame.recv)
+        for nm, p in zip(names, self.parts):
+            inner.env[nm] = SBytes(z3.Select(p.arr, j))
+        v = interp.eval(elt, inner)
+        if not isinstance(v, (SBytes, bytes)):
+            raise Unsupported("comprehension element is not a byte string")
+        arr = z3.Lambda([j], bt(v))
+        return SymBytesList(arr, self.length(), SBytes(z3.Const(f"join!{next(cur().fresh_id)}", BytesSort)))
+
+
+class SymSetOf:
+    """set(L) of a symbolic list of byte strings: only its length is observable; it equals len(L) exactly when the
+    entries are pairwise distinct (uninterpreted predicate over the list)"""
+
+    def __init__(self, lst):
+        self.lst = lst
+
+    def length(self):
+        p = cur()
+        k = next(p.fresh_id)
+        c = z3.Int(f"card!{k}")
+        d = pairwise_distinct(self.lst)
+        n = zt(self.lst.n)
+        p.zc.append(z3.And(c >= 0, c <= n, (c == n) == d, z3.Implies(n <= 1, d)))
+        return SInt(c)
+
+
+_distinct = z3.Function("pairwise_distinct", z3.ArraySort(IntSort, BytesSort), IntSort, z3.BoolSort())
+
+
+def pairwise_distinct(lst):
+    return _distinct(lst.arr, zt(lst.n))
+
+
 def b_zip(interp, *its):
+    if any(isinstance(i, SymBytesList) for i in its):
+        if not all(isinstance(i, SymBytesList) for i in its):
+            raise Unsupported("zip of a symbolic list with a concrete sequence")
+        return SymListZip(list(its))
     if any(isinstance(i, SBytes) for i in its):
         return SymZip(list(its))
     from .anyval import SymSeq
@@ -443,6 +501,8 @@ sb_mut = {}
 
 
 def b_set(interp, it=()):
+    if isinstance(it, SymBytesList):
+        return SymSetOf(it)
     items = interp.iterate(it)
     if all(isinstance(x, (int, str, bytes, tuple)) for x in items):
         return set(items)
